@@ -240,13 +240,13 @@ func c05Check(c *Ctx, s, pos, enc, mode string, valid bool, hist string) (nontri
 
 func c05Run(c *Ctx) {
 	mustBeDefault(c)
-	c.S.Rule = "cases = (string, position, encoder, escaping mode, validity check, option history): strings are all words of <= K tokens over {a, 1, space, tab, newline, &, <, >, \", ', e-acute, &amp;, &#x41;, ]]>, <![CDATA[, </r>, /, a run of multi-byte characters whose code points end in the byte of an XML special character (U+2026 U+2022 U+0126 U+203C U+203E U+2027 U+4E26), U+FFFD}; for the Map encoders also with the values held as []byte (words of <= 2 tokens); positions element text, attribute value, text beside an attribute, text before a child element, the same three directly in the root element, and a member of a top-level list (default-root wrapping); encoders Map.Xml, Map.XmlIndent, MapSeq.Xml, MapSeq.XmlIndent; modes encoder-side escaping, decoder-side escaping (reached by the five documented call histories of the two switches), escaping off with validity check on/off. Oracle: with escaping the output is well formed and a plain decode gives exactly the values a plain decode of the correctly-escaped source gives; with escaping off and validity on: error or well-formed output; always no panic. non-trivial = the string contains an XML special character."
+	c.S.Rule = "cases = (string, position, encoder, escaping mode, validity check, option history): strings are all words of <= K tokens over {a, 1, space, tab, newline, carriage return, &, <, >, \", ', e-acute, &amp;, &#x41;, ]]>, <![CDATA[, </r>, /, a run of multi-byte characters whose code points end in the byte of an XML special character (U+2026 U+2022 U+0126 U+203C U+203E U+2027 U+4E26), U+FFFD}; for the Map encoders also with the values held as []byte (words of <= 2 tokens); positions element text, attribute value, text beside an attribute, text before a child element, the same three directly in the root element, and a member of a top-level list (default-root wrapping); encoders Map.Xml, Map.XmlIndent, MapSeq.Xml, MapSeq.XmlIndent; modes encoder-side escaping, decoder-side escaping (reached by the five documented call histories of the two switches), escaping off with validity check on/off. Oracle: with escaping the output is well formed and a plain decode gives exactly the values a plain decode of the correctly-escaped source gives; with escaping off and validity on: error or well-formed output; always no panic. non-trivial = the string contains an XML special character."
 	c.S.Assumptions = []string{"the Map/MapSeq under test is obtained by decoding a correctly escaped document that holds the string (decoders validated by C01/C04)"}
 	k := 3
 	if c.Thorough {
 		k = 4
 	}
-	alpha := []string{"a", "1", " ", "\t", "\n", "&", "<", ">", "\"", "'", "é", "&amp;", "&#x41;", "]]>", "<![CDATA[", "</r>", "/", "\u2026\u2022\u0126\u203c\u203e\u2027\u4e26", "\ufffd"}
+	alpha := []string{"a", "1", " ", "\t", "\n", "\r", "&", "<", ">", "\"", "'", "é", "&amp;", "&#x41;", "]]>", "<![CDATA[", "</r>", "/", "\u2026\u2022\u0126\u203c\u203e\u2027\u4e26", "\ufffd"}
 	var words []string
 	seqs(alpha, k, func(s []string) { words = append(words, strings.Join(s, "")) })
 	if c.Shard == 0 {
